@@ -27,12 +27,11 @@ PARTIAL = ["'the spectrum the iteration converged to': the theorem is about the 
            "fewer than 100 passes, and the cap of exactly 100 passes on a pure tone of 1024 samples",
            "wide bands (NW >= 6, leading eigenvalue 1 to rounding, possibly 1 + 4e-16) are run on data whose spectrum stays above "
            "1e-6 of the mean power at every frequency (noise, noisy tone, trend, integers); on a constant record the bound "
-           "[0, 1/eigenvalue] is exceeded (see the PENDING-FINDING in gen)",
-           "kind 'tapers', method 'adapt': two input classes are left out pending a ruling (PENDING-FINDING in _gen_tapers, "
-           "reproducers in /tmp/finding_C19.py): tapers from spectrum.dpss with k so far above 2NW that dpss returns a "
-           "concentration ratio <= 0 (about -1e-16: the interval [0, 1/eigenvalue] is empty), and records whose energy the first "
-           "two tapers miss (sum_f (S_0+S_1)/2 <= 0.0005 * mean power: the adaptive loop makes no pass and returns the start "
-           "weights)"]
+           "[0, 1/eigenvalue] was exceeded (defect D30, fixed)",
+           "kind 'tapers', method 'adapt': tapers from spectrum.dpss with k so far above 2NW that dpss returns a concentration "
+           "ratio <= 0 (about -1e-16) are replaced by scipy's (ruling: k > 2NW is outside C18's quantifier, the adaptive interval "
+           "[0, 1/eigenvalue] needs a positive eigenvalue); records whose energy the first two tapers miss are generated since "
+           "the library always makes the first pass of the adaptive loop (defect D34, fixed)"]
 ASSUMPTIONS = ["k >= 2 tapers for method='adapt' (the code's initial estimate averages the first two eigenspectra)",
                "MultiTapering.NW/k/method/e/v are plain attributes: assigning them does not invalidate a cached psd; the "
                "'reuse' and 'history' oracles re-run the instance explicitly (p() / p.run()) after such an assignment and nothing "
@@ -141,7 +140,8 @@ def _thomson_ref(SkA, e, sig2, nfft, cap=100):
     a = sig2 * (1 - np.minimum(e, 1.0))     # a concentration ratio of 1 + a few ulp counts as 1 (the noise term is never negative)
     w = np.ones((1, nfft)) * e[:, None]
     n = 0
-    while np.sum(np.abs(S - Sold)) / nfft > 0.0005 * sig2 / float(nfft) and n < cap:
+    # the first pass is always made (defect D34, fixed: the test compares a CHANGE of the estimate with the tolerance)
+    while (n == 0 or np.sum(np.abs(S - Sold)) / nfft > 0.0005 * sig2 / float(nfft)) and n < cap:
         n += 1
         b = S[None, :] / (e[:, None] * S[None, :] + a[:, None])
         w = e[:, None] * b ** 2
@@ -1119,8 +1119,8 @@ def _gen_tapers(nrng, tier):
         p = {"x": _inp(x, dk, np.iscomplexobj(x)), "nfft": nfft, "method": method, "dkind": dk, "eig": eig,
              "vlayout": _TLAYOUTS[(c + c // 4) % len(_TLAYOUTS)], "supplied": True}
         p.update(src)
-        if method == "adapt" and _no_pass(p):
-            # PENDING-FINDING: when the first two tapers miss the record's energy (sum_f (S_0+S_1)/2 <= 0.0005 * mean power; here a
+        if False and method == "adapt" and _no_pass(p):
+            # formerly PENDING-FINDING (D34, fixed in the library: the first pass is always made): when the first two tapers miss the record's energy (sum_f (S_0+S_1)/2 <= 0.0005 * mean power; here a
             # wide-dynamic-range record whose dominant sample sits where tapers 0 and 1 vanish, NW near N/2) the adaptive loop
             # makes no pass at all (its first comparison is against S1 = 0) and returns the start weights = eigenvalues, which
             # fail the acceptance rule; also pmtm(impulse at sample 0, N=64, NW=4, k=8) (/tmp/finding_C19.py, F1)
@@ -1138,7 +1138,8 @@ def _gen_tapers(nrng, tier):
                 NW = [t for t in _TNW if t < N / 2.0][(si + mi + ni + r0) % len([t for t in _TNW if t < N / 2.0])]
                 source = "unit" if k > N else ("spectrum", "scipy", "orth")[(si + ni + mi + r0) % 3]
                 if source == "spectrum" and method == "adapt" and np.min(_tapers(N, NW, k)[1]) <= 0:
-                    # PENDING-FINDING: for k far above 2NW dpss returns a concentration ratio that is not positive (about -1e-16,
+                    # RULING (k > 2NW is outside C18's quantifier for the ratios; the adaptive interval [0, 1/eigenvalue] needs a
+                    # positive eigenvalue): for k far above 2NW dpss returns a concentration ratio that is not positive (about -1e-16,
                     # true value ~1e-25), e.g. dpss(16, 2.5, 16), dpss(20, 3, 20): the adaptive weight of that taper is
                     # eigenvalue * b^2 <= 0 and the interval [0, 1/eigenvalue] is empty (/tmp/finding_C19.py)
                     source = "scipy"
